@@ -88,6 +88,10 @@ func (s *Server) DidSave(ctx context.Context, params *lsp.DidSaveTextDocumentPar
 
 func (s *Server) DidChange(ctx context.Context, params *lsp.DidChangeTextDocumentParams) error {
 	verifPoint("didChange")
+	if len(params.ContentChanges) == 0 {
+		// Nothing has changed.
+		return nil
+	}
 	filename := params.TextDocument.URI.Filename()
 	content := params.ContentChanges[0].Text
 	s.docs[filename] = &document{
